@@ -1,7 +1,7 @@
 SPECIFICATION Spec
 CONSTANTS
   Lits <- Lits2
-  Ops = {"+", "*", "-"}
+  Ops = {"+", "*"}
   Forms = {"lit", "ref", "neg", "rl", "lr", "rr", "cc"}
   OpenKinds = {"open", "openC", "openU", "openCS"}
   Kinds = {"enumE", "enumI", "const", "constexpr", "macroP", "macroB", "array"}
